@@ -69,6 +69,10 @@ func (c *GenericNumberState) NextToken(
 
 	// Process the result.
 	if !gotADigit {
+		// Return the end of stream as well when it was reached
+		if utilities.CharValidator.IsEof(nextSymbol) {
+			scanner.Unread()
+		}
 		scanner.UnreadMany(tokenValue.Len())
 		if tokenizer != nil && tokenizer.SymbolState() != nil {
 			return tokenizer.SymbolState().NextToken(scanner, tokenizer)
